@@ -89,3 +89,44 @@ plan(Plan(
     technique="loop-free pass-through obligations decided by structural identity of the symbolic result; finite side conditions on constants",
     level_note="assumes Python call semantics for *args/**kwargs forwarding (A4); Tag.__init__'s own type check of _add_ws is covered by the bounded oracle here and by C15's contract",
 ))
+
+
+TABLE_G = ["G:TEXT_TABLE:", "G:ATTR_TABLE:"]
+HTML_FNS = [CORE + "HTML." + m for m in ("as_string", "__str__", "_repr_html_", "__repr__", "__add__", "__radd__")]
+TAD_FNS = [CORE + "TagAttrDict." + m for m in ("_normalize_attr_name", "_normalize_attr_value", "__setitem__", "update")]
+TAD_INIT = CORE + "TagAttrDict.__init__"
+
+
+def _own(*needles):
+    def f(name):
+        return not name.startswith("R:") and not name.startswith("F:") or any(n in name for n in needles)
+    return f
+
+
+PLANS["C07"].own = _own()          # exact refinement of the renderer supports C07; a refuted refinement obligation is decided by the C07 oracle
+plan(Plan(
+    id="C02", title="Plain-text children are inert data",
+    contracts=RENDER_FNS + HTML_FNS[:4],
+    lean={"HV.C02": ["TEXT_keys", "TEXT_refs", "C02_esc_spec", "C02_decodes", "C02_no_lt_gt", "C02_amp_only_refs", "C02_esc_append",
+                     "C02_text_inert_list", "C02_text_inert_tag"]},
+    gconds=TABLE_G + ["G:htmltools.html_escape:reexport"], oracle="c02", design_ref="§7 C02",
+    own=_own("html_escape", "_normalize_text"),
+    assumptions=["`every way of adding a child` stores strings whole and numbers as str(n): that is C14's contract (checked there); here the stored-children state is quantified over directly"],
+))
+plan(Plan(
+    id="C03", title="Attribute values are inert, single-line, and decode to the original",
+    contracts=[UTIL + "html_escape", CORE + "Tag.get_html_string"] + TAD_FNS + HTML_FNS,
+    lean={"HV.C03": ["ATTR_keys", "ATTR_refs", "C03_esc_spec", "C03_decodes", "C03_inert", "C03_amp_only_refs", "C03_esc_append", "C03_esc_space",
+                     "C03_attr_segment", "C03_plain_attr", "C03_open_tag", "C03_merge", "C03_merge_raw"]},
+    gconds=TABLE_G, oracle="c03", design_ref="§7 C03",
+    own=_own("html_escape", "TagAttrDict", "HTML.__add__", "HTML.__radd__", "loop0"),
+))
+plan(Plan(
+    id="C04", title="Trusted markup is emitted verbatim and escaping happens exactly once",
+    contracts=RENDER_FNS + HTML_FNS,
+    lean={"HV.C02": ["C04_raw_verbatim_list", "C04_raw_verbatim_tag", "C04_repr_verbatim_tag", "C04_noesc_text_verbatim"],
+          "HV.C03": ["C04_html_attr_verbatim", "C04_add_rend", "C04_add_raw", "C04_concat_algebra", "C04_all_plain"]},
+    gconds=TABLE_G + ["G:HTML:no__iadd__"], oracle="c04", design_ref="§7 C04",
+    own=_own("HTML.", "_normalize_text", "html_escape"),
+    assumptions=["`+` with operands other than str/HTML goes through str(other), an external call (A5); other UserString methods (%, format, join) are not in the statement"],
+))
